@@ -345,6 +345,9 @@ type urlQ struct {
 	SQL     string `json:"sql"`
 	Hdr     string `json:"hdr"`
 	Form    string `json:"form"`
+	Expr    string `json:"expr,omitempty"`    // urlargs family: the exact call text
+	Table   string `json:"table,omitempty"`   // urlargs family: FROM clause ("web", "web e")
+	Variant string `json:"variant,omitempty"` // urlargs family: argument-count / optional-argument variant
 }
 
 // every pattern contains "https" and "[^/]" and therefore triggers the rewrite
@@ -657,6 +660,7 @@ func ridMap(rows [][]string) (map[string]string, bool) {
 
 func checkC17(c *vlib.Ctx) {
 	c.Rule("default.ev holds ~300 rows with unique rid: timestamps at/around every unit boundary (±1µs, around .5s), the epoch, 1955/1969, 2100/2199, DuckDB's default bucket origin; URL-like strings of every malformed shape. Queries: time_bucket for every supported unit x amount with/without origin, date_trunc for every unit, URL-domain REGEXP_REPLACE/REGEXP_EXTRACT patterns that trigger the rewrite, WHERE trees of AND/OR/NOT/parentheses over LIKE, <> '' and other predicates, as value, GROUP BY and filter forms, with and without x-arc-database. A query is non-trivial when arc's logged converted SQL shows the rewrite fired.")
+	c.Rule("family 'urlargs' (enumerated, identical at every seed, 232 queries dealt to the workers) over default.web = every scheme x www x host x port x path combination of real http(s) URLs (300 rows) + the malformed shapes + NULLs: REGEXP_EXTRACT(col, p) | (col, p, 0|1|2) | (col, p, 1, 'i') and REGEXP_REPLACE(col, p, '\\1' | '\\\\1' | '\\0' | '' | '[\\1]') | (col, p, '\\1', 'g') x every URL pattern (+ a two-group pattern) x 4 spellings (upper/lower/mixed-case name; tight, padded, newline/tab spacing) over url/ref, a quoted and an alias-qualified column, as value and filter form; non-trivial = compared with a non-empty reference result")
 	c.Assume("reference = the same SQL text on a private DuckDB (same library version) over views of exactly the stored Parquet files; rows matched by rid")
 	c.Assume("arc's debug log line 'Executing query' (converted_sql) is used only to count whether a rewrite fired and for replay details, never for the verdict")
 
@@ -703,11 +707,37 @@ func c17Setup(c *vlib.Ctx, w int) (*env, []c17Row, bool) {
 			return nil, nil, false
 		}
 	}
+	// default.web: the rows of the urlargs family (deterministic, see c17args.go)
+	web := genWebRows()
+	{
+		var sb strings.Builder
+		for _, r := range web {
+			sb.WriteString(webLP(r))
+			sb.WriteByte('\n')
+		}
+		if err := e.write("default", []byte(sb.String()), len(web)); err != nil {
+			c.Inconclusive(err.Error())
+			e.close()
+			return nil, nil, false
+		}
+		if !e.flush() {
+			c.Inconclusive("flush watchdog")
+			e.close()
+			return nil, nil, false
+		}
+	}
 	if err := e.defineRefs("default"); err != nil {
 		c.Inconclusive("reference: " + err.Error())
 		e.close()
 		return nil, nil, false
 	}
+	if _, got, err := refQuery(e.refs[""], "SELECT count(*), count(DISTINCT rid), count(url) FROM web"); err != nil || len(got) != 1 ||
+		got[0][0].(int64) != int64(len(web)) || got[0][1].(int64) != int64(len(web)) || got[0][2].(int64) != int64(len(web)-2) {
+		c.Inconclusive(fmt.Sprintf("dataset web not stored as generated: %v %v want %d", err, got, len(web)))
+		e.close()
+		return nil, nil, false
+	}
+	c.Count("dataset_rows_web", int64(len(web)))
 	// sanity: the stored rows are the generated rows (otherwise comparisons are moot)
 	_, got, err := refQuery(e.refs[""], "SELECT rid, epoch_us(time) FROM ev ORDER BY rid")
 	if err != nil || len(got) != len(rows) {
@@ -750,6 +780,7 @@ func c17Worker(c *vlib.Ctx, w, nTime, nURL, nLike int) {
 		q := genLikeQ(rng)
 		c17Like(c, e, w, q)
 	}
+	c17URLArgs(c, e, w, 4, genWebRows())
 }
 
 func account(c *vlib.Ctx, o outcome, class string) bool {
@@ -873,6 +904,13 @@ func c17URL(c *vlib.Ctx, e *env, w int, q urlQ, byRid map[string]c17Row) {
 	if o.Kind == "equal" {
 		return
 	}
+	c17URLMismatch(c, e, w, q, o, byRid)
+}
+
+// c17URLMismatch names a mismatch of the canonical rewritten call forms
+// (REGEXP_EXTRACT(col, p, 1) / REGEXP_REPLACE(col, p, '\1')): pattern label + first
+// differing input class.
+func c17URLMismatch(c *vlib.Ctx, e *env, w int, q urlQ, o outcome, byRid map[string]c17Row) {
 	detail := map[string]any{"worker": w, "query": q, "outcome": o}
 	sigBase := fmt.Sprintf("URL-domain rewrite of %s (%s)", q.Fn, q.Label)
 	if o.arcAll == nil {
@@ -887,7 +925,11 @@ func c17URL(c *vlib.Ctx, e *env, w int, q urlQ, byRid map[string]c17Row) {
 		} else {
 			expr = fmt.Sprintf(`%s(%s, '%s', 1)`, fn, q.Col, q.Pattern)
 		}
-		vs := fmt.Sprintf("SELECT rid, %s AS d FROM ev", expr)
+		from := "ev"
+		if q.Expr != "" {
+			expr, from = q.Expr, q.Table
+		}
+		vs := fmt.Sprintf("SELECT rid, %s AS d FROM %s", expr, from)
 		vo := e.run(vs, q.Hdr, false, false)
 		if vo.Kind != "mismatch" || vo.arcAll == nil {
 			c.Violation(sigBase+": "+q.Form+" form differs although per-row values agree", detail)
